@@ -7,6 +7,11 @@ ALL = ["C%02d" % i for i in range(1, 21)]
 
 # property -> (category, technique, text, note, design_ref)
 CHECKS = {
+ "C13": ("exploration",
+   "exhaustive run of an enumerated finite catalogue of datasets x the full configuration grid (kernels, C / nu / eps, solver tolerance, shrinking off and on, f32 / f64, six problem types), each published solution checked against dual feasibility and KKT recomputed with an own kernel function",
+   "9 lattice-based dataset families (separable, overlapping with conflicting duplicates, imbalanced 1:4, outliers, exact / noisy lines, curves, duplicate abscissae; n in {8,12,20,40} quick, up to 200 thorough so that shrinking triggers) x 5 kernels x C with three weightings / nu / eps_loss grids x solver eps {1e-3, 1e-7} x shrinking {off, on} x f32 / f64 x {C-SVC, nu-SVC, eps-SVR, nu-SVR, one-class, Pr-calibrated}; 14,246 / 21,196 fits, all must terminate. From the published alpha and rho and an own kernel function: box bounds per class weight, equality constraints, KKT sign conditions with tau = 2 x solver eps + rounding, weighted_sum(x) == sum_j alpha_j K(x_j, x) on training and new x, label == sign, Pr monotone in the decision value, nsupport == #{|alpha| > 100 eps}, consistent exit reason; shrinking on / off compared through the same KKT oracle plus a closed-form permutation test.",
+   "A bounded claim over the catalogue x grid. Solver tolerances below the float resolution (f32 x 1e-7, large C*K) can only stop at the 10^7-iteration cap and are excluded by an explicit counted predicate in quick. Samples whose tau is too large are indeterminate. Platt's A, B are private: Pr is checked for range, monotonicity and identity of the underlying solution.",
+   "DESIGN.md 4/C13"),
  "C11": ("exploration",
    "exhaustive run of an enumerated finite catalogue of designs x column images x the full parameter grid, against the statement's own perturbation / duality-gap formulation and exact coordinate minimisers",
    "24 lattice designs (full and fractional factorials, n in {4,6,9,12}, p in {1,2,3}, full column rank of [X | 1] verified by own elimination) x column offsets {0, 5, -100} x scales {1e-3, 1, 1e3}, constant- and duplicated-column variants (judged only with a strictly convex penalty), 1..3 targets, f32 and f64 x OLS (intercept on / off), ElasticNet and MultiTaskElasticNet over penalty {0,.01,.1,1,10} x l1_ratio {0,.5,1} x intercept x tolerance: no perturbation of any coefficient (ladder 1e-6..1 and the exact coordinate / block soft-threshold minimiser) or of the intercept lowers the documented objective by more than gap/n; gap >= 0; global check against the harness's own optimum; coefficients under the l1 threshold exactly 0; predict == Xw + b; OLS residual orthogonal to every column and to the constant column.",
